@@ -93,10 +93,17 @@ func Component(r *evid.Run) {
 	if workers > 16 {
 		workers = 16
 	}
+	indices := make([]int, n)
+	for i := range indices {
+		indices[i] = i
+	}
 	if v := os.Getenv("C09_ONLY"); v != "" {
-		// Development aid: run a single case verbosely.
+		// Reproduction aid: run the single case named in a witness
+		// (C09_ONLY=<case> VERIF_SEED=<seed> ./check C09 <tier>) and print
+		// its script, trace and log.
 		var idx int
 		fmt.Sscanf(v, "%d", &idx)
+		indices = []int{idx}
 		res := RunCase(MakePlan(r.Seed, idx))
 		d := describe(res)
 		fmt.Printf("case %d %s\n  %s\n  %s\n", idx, d.Fingerprint, d.Start, d.Watch)
@@ -106,7 +113,7 @@ func Component(r *evid.Run) {
 		for _, e := range res.Log {
 			fmt.Printf("    %4d %-9s h=%d %s prev=%s txs=%v upd=%d err=%q %s\n", e.Seq, e.Kind, e.Height, e.HashS, e.PrevS, e.Txs, e.Upd, e.Err, e.Note)
 		}
-		fmt.Printf("  violation=%+v inconclusive=%q broken=%q exit=%v/%q stats=%+v\n", res.Violation, res.Inconclusive, res.Broken, res.Exited, res.ExitErr, res.Stats)
+		fmt.Printf("  violation=%+v inconclusive=%q broken=%q exit=%v/%q\n", res.Violation, res.Inconclusive, res.Broken, res.Exited, res.ExitErr)
 	}
 
 	jobs := make(chan int)
@@ -128,7 +135,7 @@ func Component(r *evid.Run) {
 			}
 		}()
 	}
-	for i := 0; i < n; i++ {
+	for _, i := range indices {
 		jobs <- i
 	}
 	close(jobs)
@@ -181,10 +188,15 @@ func Component(r *evid.Run) {
 		}
 		if res.Violation == nil && res.Inconclusive == "" {
 			r.Sample(map[string]any{"case": p.Index, "fingerprint": fp, "script": describe(res).Script,
-				"connected": st.Connected, "disconnected": st.Disconnected, "txs": st.TxDelivered, "final_height": st.FinalHeight})
+				"connected": st.Connected, "disconnected": st.Disconnected, "txs": st.TxDelivered, "final_height": st.FinalHeight,
+				"rescan_exit": map[bool]string{true: "err=" + res.ExitErr, false: "running until quit"}[res.Exited && res.ExitErr != "quit"]})
 		}
 		if v := res.Violation; v != nil {
-			sig := evid.Sig(v.Rule, v.Shape, "phase="+res.Phase, "fork="+res.ForkRel, "fail="+res.FailKind)
+			// Signature = oracle rule + shape of the failing observation
+			// (relation of the block to the caller's position, how the
+			// rescan obtained it). Phase / fork position / failure kinds
+			// of the case are in the text and the fingerprint.
+			sig := evid.Sig(v.Rule, v.Shape)
 			r.Violation(sig, fmt.Sprintf("case %d [%s]: %s", p.Index, fp, v.Text), describe(res))
 		}
 	}
